@@ -583,3 +583,49 @@ def _mk_lexical(family, validator):
 for _f in ('xml', 'soap11', 'http'):
     for _v in ('soft', None):
         _mk_lexical(_f, _v)
+
+
+# ---------------------------------------------------------------------------------------------------------------
+# flat documents (HttpRpc): what _to_native_values hands on, for every raw value kind a transport can deliver
+
+def _mk_flat_native(vname, validator):
+    @obligation('C04.flat.to_native_values.%s' % vname,
+                targets=['spyne.protocol.dictdoc.simple:SimpleDictDocument._to_native_values'],
+                bounded="9 declared member types x 6 raw value kinds a transport delivers (text, bytes, an uploaded multipart "
+                        "part as File.Value, junk text, empty text, None) x 1..2 values",
+                desc="_to_native_values(member, raw values): whatever the transport delivered for the key -- text, bytes or an "
+                     "uploaded file part -- every value handed on is None or an instance of the declared member type's "
+                     "native Python type; an uploaded part is only passed through for a File member")
+    def ob(c):
+        import datetime
+        import decimal
+        from spyne.model.binary import File, ByteArray
+        from spyne.model.primitive import Boolean, Decimal, Double, Integer32
+        from spyne.protocol.http import HttpRpc
+        pool = [('Integer', Integer, (int,)), ('Integer32', Integer32, (int,)), ('Unicode', Unicode, (str,)),
+                ('Date', Date, (datetime.date,)), ('Boolean', Boolean, (bool,)), ('Decimal', Decimal, (decimal.Decimal,)),
+                ('Double', Double, (float,)), ('File', File, (File.Value,)), ('ByteArray', ByteArray, (list, tuple, bytes))]
+        name, T, native = c.choose(pool, 'declared_member_type')
+        raw_kind = c.choose(['text', 'bytes', 'file_part', 'junk', 'empty', 'none'], 'raw_value_kind')
+        n = c.choose([1, 2], 'values')
+
+        def raw():
+            return {'text': u'5', 'bytes': b'5', 'junk': u'jun k', 'empty': u'', 'none': None,
+                    'file_part': File.Value(name='up.bin', type='application/octet-stream', data=[b'5'])}[raw_kind]
+        prot = HttpRpc(validator=validator)
+        Holder = type(ComplexModel)('FlatHolder', (ComplexModel,), {'__namespace__': TNS, '_type_info': [('m', T)]})
+        member = type('Member', (object,), {'type': T, 'path': ('m',), 'parent': Holder})()
+        out = c.run(prot._to_native_values, Holder, member, 'm', 'm', [raw() for _ in range(n)], 'utf8', prot.validator)
+        if not out.returned:
+            c.end("refused: nothing is handed on")
+        vals = list(out.value)
+        c.check('handed_on_values_have_declared_native_type',
+                all(v is None or (isinstance(v, native) and not (native == (int,) and isinstance(v, bool))) for v in vals),
+                detail=(name, raw_kind, [type(v).__name__ for v in vals]))
+        c.check('file_part_only_for_file_member', issubclass(T, File) or not any(isinstance(v, File.Value) for v in vals),
+                detail=(name, raw_kind))
+    return ob
+
+
+for _vn, _v in (('soft', 'soft'), ('none', None)):
+    _mk_flat_native(_vn, _v)
